@@ -143,6 +143,12 @@ def run_job(pid, job, seed, tier, work):
             res["inconclusive"]["shard-watchdog(%s)" % job["name"]] = res["inconclusive"].get("shard-watchdog(%s)" % job["name"], 0) + 1
             res["exhaustive"] = False
             continue
+        if rc == 97:
+            k = "episode-watchdog(%s): %s" % (job["name"], (err.strip().splitlines() or ["?"])[-1][:200])
+            res["inconclusive"][k] = res["inconclusive"].get(k, 0) + 1
+            res["infra_error"] = "an episode did not finish within its wall-clock watchdog (inconclusive, run incomplete)"
+            res["exhaustive"] = False
+            continue
         if rc != 0 or not os.path.exists(out):
             sig, detail = classify_crash(err)
             if sig:
